@@ -8,7 +8,9 @@
 //!     MOHD counts equal list lengths, string-offset tables resolve, MOGP covers its sub-chunks;
 //!   * the library's own parsers (`WmoParser::parse_root`, `parse_wmo`): content equality per
 //!     section and field, second write byte-identical;
-//!   * `WmoConverter` over all 25 version pairs: content representable in both versions is kept.
+//!   * `WmoConverter` over all 25 version pairs: content representable in both versions is kept;
+//!   * writer position independence (space `position`): the same call on a stream that already
+//!     holds 1..4096 bytes leaves them alone and writes behind them what it writes at position 0.
 mod inputs;
 mod model;
 mod walk;
@@ -1530,6 +1532,193 @@ impl Space for LegacyGroupParser {
     }
 }
 
+// ------------------------------------------------------------------ writer position independence
+
+/// Bytes already in the stream in front of the object (another file of a pack, a container header).
+const PREFIX_LENS: [usize; 5] = [1, 12, 20, 64, 4096];
+/// Every public entry point of wow-wmo that takes a `Write + Seek`.
+const POS_ENTRIES: [(&str, bool); 4] = [("WmoWriter::write_root", true), ("WmoEditor::save_root", true), ("WmoWriter::write_group", false), ("WmoEditor::save_group", false)];
+
+/// Known filler: every byte has its high bit set, so no four of them read as a small little-endian
+/// size or as a chunk id, and a stray back-patch inside the prefix always changes a byte.
+fn prefix_pattern(n: usize) -> Vec<u8> {
+    (0..n).map(|i| 0x80 | ((i * 7 + 3) % 0x7f) as u8).collect()
+}
+
+/// What one positioned call left behind: Ok((whole buffer, stream position afterwards)) or Err.
+type Positioned = Guarded<std::result::Result<(Vec<u8>, u64), String>>;
+
+/// Calls `f` on a `Cursor<Vec<u8>>` that holds `prefix_pattern(prefix)` and stands at its end.
+fn write_behind_prefix(prefix: usize, f: &dyn Fn(&mut Cursor<Vec<u8>>) -> wow_wmo::Result<()>) -> Positioned {
+    guarded(|| {
+        let mut c = Cursor::new(prefix_pattern(prefix));
+        c.set_position(prefix as u64);
+        match f(&mut c) {
+            Ok(()) => {
+                let end = c.position();
+                Ok((c.into_inner(), end))
+            }
+            Err(e) => Err(e.to_string()),
+        }
+    })
+}
+
+/// Level vectors of the position space: the empty and the full baseline and every vector with one
+/// section deviating from either (quick levels; thorough: the extended alphabets, megabyte levels
+/// included). All of them are members of the round-trip spaces, which judge the bytes written at
+/// position 0 against the walker and the parsers.
+fn position_cfgs(root: bool, tier: Tier) -> Vec<Vec<u8>> {
+    match (tier, root) {
+        (Tier::Quick, true) => configs(&ROOT_SITES, 1),
+        (Tier::Quick, false) => configs(&GROUP_SITES, 1),
+        (Tier::Thorough, true) => {
+            let one: Vec<&[u8]> = ROOT_SITES_X.iter().map(|_| &[0u8][..]).collect();
+            configs_deep(&ROOT_SITES_X, &one, &editor_full_cfg(), (1, 1), 1)
+        }
+        (Tier::Thorough, false) => {
+            let one: Vec<&[u8]> = GROUP_SITES_X.iter().map(|_| &[0u8][..]).collect();
+            configs_deep(&GROUP_SITES_X, &one, &full_baseline(&GROUP_SITES), (1, 1), 1)
+        }
+    }
+}
+
+/// Writer position independence: an entry point handed a stream that already holds `prefix` bytes
+/// and stands behind them must leave those bytes alone and write behind them exactly the bytes it
+/// writes into an empty stream.
+struct Position {
+    deep: bool,
+    /// (entry index into POS_ENTRIES, level vector), simplest vector first, roots before groups
+    items: Vec<(usize, Vec<u8>)>,
+}
+impl Position {
+    fn new(tier: Tier) -> Self {
+        let mut items = vec![];
+        for root in [true, false] {
+            for cfg in position_cfgs(root, tier) {
+                for (e, (_, is_root)) in POS_ENTRIES.iter().enumerate() {
+                    if *is_root == root {
+                        items.push((e, cfg.clone()));
+                    }
+                }
+            }
+        }
+        Position { deep: tier == Tier::Thorough, items }
+    }
+    fn split(&self, i: u64) -> (usize, &Vec<u8>, WmoVersion, usize) {
+        let n = (5 * PREFIX_LENS.len()) as u64;
+        let (e, cfg) = &self.items[(i / n) as usize];
+        (*e, cfg, VERSIONS[(i % n / PREFIX_LENS.len() as u64) as usize], PREFIX_LENS[(i % PREFIX_LENS.len() as u64) as usize])
+    }
+}
+impl Space for Position {
+    fn len(&self) -> u64 {
+        (self.items.len() * 5 * PREFIX_LENS.len()) as u64
+    }
+    fn describe(&self, i: u64) -> Value {
+        let (e, cfg, v, prefix) = self.split(i);
+        let (entry, root) = POS_ENTRIES[e];
+        json!({"kind": "position", "entry": entry, "version": vname(v), "prefix_bytes": prefix, "cfg": cfg_string(sites_of(root, self.deep), cfg)})
+    }
+    fn run(&self, i: u64) -> CaseResult {
+        let (e, cfg, v, prefix) = self.split(i);
+        let (entry, _) = POS_ENTRIES[e];
+        let mut r = CaseResult::new();
+        r.key = format!("pos:{entry}:{:?}:{}:{}", cfg, vname(v), prefix);
+        r.nontrivial = cfg.iter().any(|&l| l != 0);
+
+        // the object, behind the entry point under test
+        let call: Box<dyn Fn(&mut Cursor<Vec<u8>>) -> wow_wmo::Result<()>> = match entry {
+            "WmoWriter::write_root" => {
+                let x = build_root(cfg, v);
+                Box::new(move |c| WmoWriter::new().write_root(c, &x, v))
+            }
+            "WmoEditor::save_root" => {
+                // a fresh editor saves its root at the root's own version, which build_root sets to v
+                let ed = WmoEditor::new(build_root(cfg, v));
+                Box::new(move |c| ed.save_root(c))
+            }
+            "WmoWriter::write_group" => {
+                let g = build_group(cfg);
+                Box::new(move |c| WmoWriter::new().write_group(c, &g, v))
+            }
+            _ => {
+                // an editor over a root (version v) with one group entry, holding the group as group 0
+                let mut rc = vec![0u8; ROOT_SITES.len()];
+                rc[2] = 1;
+                let mut ed = WmoEditor::new(build_root(&rc, v));
+                let mut g = build_group(cfg);
+                g.header.group_index = 0;
+                if !matches!(guarded(|| ed.add_group(g)), Ok(Ok(()))) {
+                    r.err_return = true;
+                    r.outcome = format!("position {entry}: editor does not take the group");
+                    return r;
+                }
+                Box::new(move |c| ed.save_group(c, 0))
+            }
+        };
+        // reference: the same call on an empty stream (these bytes are what the round-trip spaces judge)
+        let base = match write_behind_prefix(0, call.as_ref()) {
+            Ok(Ok((b, _))) => b,
+            Ok(Err(_)) => {
+                r.err_return = true;
+                r.outcome = format!("position {entry}: refused at position 0");
+                return r;
+            }
+            Err(_) => {
+                // a panic at position 0 is reported by the round-trip spaces, not here
+                r.outcome = format!("position {entry}: panic at position 0");
+                return r;
+            }
+        };
+        r.count("positioned_writes", 1);
+        match write_behind_prefix(prefix, call.as_ref()) {
+            Err((file, line, msg)) => {
+                r.outcome = format!("position {entry}: panic behind a prefix");
+                add(&mut r, format!("{} [{entry} on a stream positioned behind existing bytes; no panic at position 0]", panic_class(&file, &msg)), format!("prefix {prefix}: panic at {file}:{line}: {msg}"));
+            }
+            Ok(Err(_)) => {
+                // a writer may refuse; nothing is demanded of the stream contents then
+                r.err_return = true;
+                r.outcome = format!("position {entry}: refused behind a prefix");
+            }
+            Ok(Ok((buf, end))) => {
+                let pat = prefix_pattern(prefix);
+                let kept = buf.len() >= prefix && buf[..prefix] == pat[..];
+                let same = buf.len() >= prefix && buf[prefix..] == base[..];
+                r.count("positioned_bytes_compared", (prefix + base.len()) as u64);
+                if end == buf.len() as u64 && end == (prefix + base.len()) as u64 {
+                    r.count("positioned_streams_left_at_end", 1);
+                }
+                if !kept {
+                    let at = (0..prefix.min(buf.len())).find(|&k| buf[k] != pat[k]).unwrap_or(buf.len());
+                    add(
+                        &mut r,
+                        format!("position: {entry} changes bytes that were in the stream in front of its start position"),
+                        format!("prefix {prefix} bytes, first changed byte at offset {at} ({:#04x} -> {:#04x}), buffer {} bytes afterwards", pat.get(at).copied().unwrap_or(0), buf.get(at).copied().unwrap_or(0), buf.len()),
+                    );
+                }
+                if !same {
+                    let tail = if buf.len() >= prefix { &buf[prefix..] } else { &buf[0..0] };
+                    add(
+                        &mut r,
+                        format!("position: {entry} writes other bytes behind a non-zero start position than at position 0"),
+                        format!("prefix {prefix} bytes; at position 0 / behind the prefix: {}", first_diff(&base, tail)),
+                    );
+                }
+                r.outcome = format!("position {entry}: prefix {} bytes {}", if kept { "kept" } else { "touched" }, if same { "identical" } else { "differ" });
+            }
+        }
+        r
+    }
+    fn case_timeout(&self) -> u64 {
+        if self.deep {
+            120
+        } else {
+            30
+        }
+    }
+}
+
 /// level vectors of the chain spaces: <= 2 deviations over the extended alphabets, without the
 /// doodad levels whose name offsets the writer renumbers (finding F3 is judged in the root space)
 fn chain_cfgs(root: bool) -> Vec<Vec<u8>> {
@@ -1561,6 +1750,7 @@ fn build(name: &str, _arg: &str, tier: Tier) -> Box<dyn Space> {
         "ladder_root" => Box::new(Ladder::new(true)),
         "ladder_group" => Box::new(Ladder::new(false)),
         "legacy_group_parser" => Box::new(LegacyGroupParser),
+        "position" => Box::new(Position::new(tier)),
         _ => panic!("space {name}"),
     }
 }
@@ -1627,12 +1817,20 @@ fn main() {
     let tier = c.tier;
     let (kr, kc) = (k_for("root", tier), k_for("convert_root", tier));
     let base_rule = "A root is a function of 11 section levels (textures none/one/non_ascii/many[shared prefixes]; materials, portals, portal refs, visible lists, lights, doodad defs, doodad sets: none/one/many; groups none/one/many[shared-prefix names]/dups[duplicate names]; skybox none/some; header plain/rich[stale in-memory counts]/custom bounds); a group of 10 (vertices, normals, tex coords, indices, batches, BSP nodes, vertex colours, liquid, doodad refs: none/one/many; header plain/rich).";
+    let pos_rule = format!(
+        "Writer position independence space: every public entry point taking a Write + Seek (WmoWriter::write_root, WmoWriter::write_group, WmoEditor::save_root, WmoEditor::save_group of a fresh editor holding the object) x the empty baseline, the full baseline and every level vector with one section deviating from either ({}) x 5 versions x prefix lengths {:?}: the call is made on a Cursor<Vec<u8>> that already holds that many bytes of a known filler (all with the high bit set) and stands at their end, as when several files are packed into one buffer or a file is appended to; the filler must be unchanged afterwards and the bytes behind it must equal the bytes the same call writes into an empty stream at position 0 (which the round-trip spaces judge against the walker and the parsers; every vector of this space is a member of them). An Err at either position counts as a refusal, a panic only behind a prefix is a violation.",
+        match tier {
+            Tier::Quick => "quick levels",
+            Tier::Thorough => "extended alphabets, megabyte levels included",
+        },
+        PREFIX_LENS
+    );
     c.rule = match tier {
         Tier::Quick => format!(
-            "{base_rule} Round-trip spaces: every level vector with <= {kr} sections deviating from the all-empty and from the all-full baseline x 5 versions Classic..MoP. Conversion spaces: every vector with <= {kc} deviations x all 25 (from,to) pairs. A case is non-trivial when at least one section is populated; distinct by (level vector, version[s])."
+            "{base_rule} Round-trip spaces: every level vector with <= {kr} sections deviating from the all-empty and from the all-full baseline x 5 versions Classic..MoP. Conversion spaces: every vector with <= {kc} deviations x all 25 (from,to) pairs. {pos_rule} A case is non-trivial when at least one section is populated; distinct by (level vector, version[s]) and, in the position space, (entry point, prefix length)."
         ),
         Tier::Thorough => format!(
-            "{base_rule} Thorough tier: (1) the FULL PRODUCT of these levels (plus doodad defs 'synth': name offsets the writer's synthesised name table reproduces, so that the second-write clause is judged with doodads present) x 5 versions for the round-trip spaces and x all 25 (from,to) pairs for the conversion spaces; (2) extended levels per section: 300 records (counts above 255/256) in every list; strings longer than 255 bytes and string tables larger than 65536 bytes (textures, group names); duplicate texture names; unnamed / non-ASCII / 18 one-flag groups; 12 one-flag materials; portals with 300 / 65535 / 65536 vertices and a portal starting at vertex 65536 (16-bit MOPT fields); doodad-set names of 20 and 25 bytes and non-ASCII; non-ASCII and 300-byte skybox; all header flags, extreme floats (infinities, -0.0, MAX, subnormal) in bounds and lights, stale-low header counts; shared and 300 doodad definitions; groups with 300 and 65537/65538 vertices, normals, tex coords, colours, indices, doodad refs; 16-bit material ids, 300 batches, 12 leaf/inner BSP nodes on all axes, 300 BSP nodes; liquids 0x0, 1x1 and 5x1 with empty tile lists, 9x9 with all flag/type bits, 257x3; all 18 group flags, extreme bounds, 0xFFFFFFFF name offset: every vector over the extended alphabets with <= {kx} sections (round trip, empty/full baseline) / <= {kcx} sections (conversion) deviating from the all-empty and the all-full baseline (levels that write about a megabyte: <= 2 / <= 1 sections); (3) conversion chains A->B->C over all 125 version triples (<= 2 deviations, extended alphabets) against the direct conversion A->C and the original, followed by the whole write->parse oracle on the reached state; (4) WmoEditor operation sequences: every sequence of <= 4 of 18 operations (add/remove material, texture, group, doodad, doodad set, vertex; convert_to_version; recalculate bounds; reload = save_root -> parse_root -> new editor) from 3 start states (empty, full, full parsed from written bytes) x 5 versions, saved with save_root/save_group and judged by the same oracles. Additional thorough-tier oracles: discover_wmo_chunks agrees with the independent walker; parse_root -> convert_root(written version) -> write_root and parse_root -> WmoEditor::convert_to_version -> save_root reproduce the first write byte for byte; when the first write->parse differs, the second generation is judged on the remaining fields; liquid type of a group seen through parse_wmo. A case is non-trivial when at least one section is populated / one operation applied; distinct by (level vector, version[s]) or (start, version, operation sequence).",
+            "{base_rule} Thorough tier: (1) the FULL PRODUCT of these levels (plus doodad defs 'synth': name offsets the writer's synthesised name table reproduces, so that the second-write clause is judged with doodads present) x 5 versions for the round-trip spaces and x all 25 (from,to) pairs for the conversion spaces; (2) extended levels per section: 300 records (counts above 255/256) in every list; strings longer than 255 bytes and string tables larger than 65536 bytes (textures, group names); duplicate texture names; unnamed / non-ASCII / 18 one-flag groups; 12 one-flag materials; portals with 300 / 65535 / 65536 vertices and a portal starting at vertex 65536 (16-bit MOPT fields); doodad-set names of 20 and 25 bytes and non-ASCII; non-ASCII and 300-byte skybox; all header flags, extreme floats (infinities, -0.0, MAX, subnormal) in bounds and lights, stale-low header counts; shared and 300 doodad definitions; groups with 300 and 65537/65538 vertices, normals, tex coords, colours, indices, doodad refs; 16-bit material ids, 300 batches, 12 leaf/inner BSP nodes on all axes, 300 BSP nodes; liquids 0x0, 1x1 and 5x1 with empty tile lists, 9x9 with all flag/type bits, 257x3; all 18 group flags, extreme bounds, 0xFFFFFFFF name offset: every vector over the extended alphabets with <= {kx} sections (round trip, empty/full baseline) / <= {kcx} sections (conversion) deviating from the all-empty and the all-full baseline (levels that write about a megabyte: <= 2 / <= 1 sections); (3) conversion chains A->B->C over all 125 version triples (<= 2 deviations, extended alphabets) against the direct conversion A->C and the original, followed by the whole write->parse oracle on the reached state; (4) WmoEditor operation sequences: every sequence of <= 4 of 18 operations (add/remove material, texture, group, doodad, doodad set, vertex; convert_to_version; recalculate bounds; reload = save_root -> parse_root -> new editor) from 3 start states (empty, full, full parsed from written bytes) x 5 versions, saved with save_root/save_group and judged by the same oracles. Additional thorough-tier oracles: discover_wmo_chunks agrees with the independent walker; parse_root -> convert_root(written version) -> write_root and parse_root -> WmoEditor::convert_to_version -> save_root reproduce the first write byte for byte; when the first write->parse differs, the second generation is judged on the remaining fields; liquid type of a group seen through parse_wmo. (5) {pos_rule} A case is non-trivial when at least one section is populated / one operation applied; distinct by (level vector, version[s]) or (start, version, operation sequence) or (entry point, level vector, version, prefix length).",
             kx = format!("{}/{} (root), {}/{} (group)", k_deep("root").0 .0, k_deep("root").0 .1, k_deep("group").0 .0, k_deep("group").0 .1),
             kcx = k_deep("convert_root").0 .0,
         ),
@@ -1645,8 +1843,8 @@ fn main() {
         c.assume("thorough tier: inputs are internally consistent (liquid vertex / tile lists match the grid dimensions, no 0xFFFF inside a visible-block list, no NUL or empty texture / skybox strings, only defined flag bits, no NaN); a value that the format cannot hold (more than 65535 portal vertices, a doodad-set name over the 20-byte field) must be refused with Err or survive, never be written silently altered; MliqHeader::liquid_type of parse_wmo is compared with WmoLiquid::liquid_type (same name, same meaning); a panic inside a WmoEditor operation is counted (editor_ops_panicked), not judged: the property is about what the writer and the parsers do with the state that was reached; in the editor and chain spaces doodad name offsets are brought to the values the writer reproduces (finding F3 is judged in the root space)");
     }
     let spaces: &[&str] = match tier {
-        Tier::Quick => &["root", "group", "convert_root", "convert_group", "legacy_group_parser"],
-        Tier::Thorough => &["root", "group", "ladder_root", "ladder_group", "convert_root", "convert_group", "convert_chain_root", "convert_chain_group", "editor", "legacy_group_parser"],
+        Tier::Quick => &["root", "group", "convert_root", "convert_group", "legacy_group_parser", "position"],
+        Tier::Thorough => &["root", "group", "ladder_root", "ladder_group", "convert_root", "convert_group", "convert_chain_root", "convert_chain_group", "editor", "legacy_group_parser", "position"],
     };
     for s in spaces {
         c.run_space(s, "");
@@ -1668,6 +1866,10 @@ fn main() {
                     "group_level_vectors": n_group,
                     "root_conversion_vectors": configs(&ROOT_SITES, kc).len(),
                     "group_conversion_vectors": configs(&GROUP_SITES, kc).len(),
+                    "position_entry_points": POS_ENTRIES.iter().map(|e| e.0).collect::<Vec<_>>(),
+                    "position_prefix_lengths": PREFIX_LENS,
+                    "position_root_vectors": position_cfgs(true, tier).len(),
+                    "position_group_vectors": position_cfgs(false, tier).len(),
                 }),
             );
         }
@@ -1704,6 +1906,10 @@ fn main() {
                     "editor_max_sequence_length": es.max_len,
                     "editor_sequences": es.nseq(),
                     "editor_start_states": EDIT_STARTS.len(),
+                    "position_entry_points": POS_ENTRIES.iter().map(|e| e.0).collect::<Vec<_>>(),
+                    "position_prefix_lengths": PREFIX_LENS,
+                    "position_root_vectors": position_cfgs(true, tier).len(),
+                    "position_group_vectors": position_cfgs(false, tier).len(),
                 }),
             );
         }
